@@ -4,7 +4,8 @@ PID = "C13"
 PARALLEL = {"C13": 8}
 TIMEOUT = {"quick": 1500, "thorough": 7000}
 RULE = ("programs: a source (1..4 shards, 0..14 rows) followed by 2..6 operators drawn from counted Map, Filter, Flatmap, Reduce, "
-        "Reshuffle, Reshard, Cache, CachePartial (cache operators at the head, in the middle, before and after shuffles), optionally "
+        "Reshuffle, Reshard, materialised Map, Cache, CachePartial (cache operators at the head of a task — after a shuffle or a "
+        "materialised slice —, in the middle, before and after shuffles), optionally "
         "under a final Head; histories of 2..6 operations: run, run again, remove a subset of shard files, run with the k-th file "
         "operation of the cache layer failing (k over the operations of a run), a second program reading a cache with ReadCache; "
         "local executor and bigmachine testsystem; after every operation every cache file present is decoded and compared with "
@@ -34,8 +35,10 @@ def gen_prog(r):
             op = "flatmap %s two" % prev
         elif k < 50:
             op = "reduce %s add" % prev
-        elif k < 58:
+        elif k < 56:
             op = "reshuffle %s" % prev
+        elif k < 61:
+            op = "mapm %s id" % prev      # a materialised slice: what follows starts a new task
         elif k < 64:
             nsh2 = r.rng(1, 4)
             op = "reshard %s %d" % (prev, nsh2)
@@ -80,11 +83,23 @@ def directed():
                 yield "%s ;; run %s ;; run %s ;; run %s" % (cfg, ph, p, ph)
 
 
+def directed_head():
+    """a cache operator that is the first operator of its task: directly over a materialised slice"""
+    rows = "1:1 2:2 3:3 4:4 5:5 6:6 7:7"
+    for cfg in ("local CH2", "bm M2 P2 CH128", "bm M1 P3 CH2"):
+        for kind in ("cache", "cachepartial"):
+            for nsh in (1, 3):
+                p = "N0=const %d %s ; N1=mapc N0 inc ; N2=mapm N1 id ; N3=%s N2 a ; N4=mapc N3 inc ; OUT N4" % (nsh, rows, kind)
+                q = "N0=readcache %d a ; N1=mapc N0 id ; OUT N1" % nsh
+                yield "%s ;; run %s ;; run %s ;; run %s" % (cfg, p, p, q)
+                yield "%s ;; run %s ;; rm a 0 ;; run %s" % (cfg, p, p)
+
+
 def gen(r, tier):
     alld = list(directed())
     if tier == "quick":
         alld = [c for c in alld if r.below(3) == 0]
-    for c in alld:
+    for c in list(directed_head()) + alld:
         yield c
     n = 300 if tier == "quick" else 6000
     for _ in range(n):
